@@ -18,7 +18,9 @@ RULE = (
     "drawn position: chunk size 0 / negative; empty tensors / features / losses; non-scalar loss at position p; too "
     "few / too many parameter groups; a shared leaf inserted into task list t at position p; a duplicated tensor in "
     "tensors / features / inputs / a task list / shared_params; a parameter that is a non-leaf without retain_grad, "
-    "or does not require grad, at position p of inputs / shared_params / task list t; in backward an aggregator "
+    "or does not require grad (a foreign tensor, or a parameter frozen with requires_grad_(False) after an earlier valid "
+    "call on the same graph), at position p of inputs / shared_params / task list t, the groups being passed as list / "
+    "tuple / one-shot generator; in backward an aggregator "
     "that rejects the Jacobian (Constant with m+-1 weights, Krum with too few rows, an aggregator raising "
     "ValueError). Oracle: if the call raises, the snapshot (value bitwise, .grad None-ness, .grad content bitwise, "
     ".grad storage pointer) of EVERY leaf and intermediate tensor is identical before and after; the fault kinds "
@@ -40,10 +42,11 @@ REQUIRED_CLASSES = {"fault:none": 1, "fault:nonleaf-param": 1, "fault:nograd-par
                     "fault:overlap": 1, "late-position": 1}
 
 B_FAULTS = ["none", "chunk", "empty-tensors", "dup-tensor", "dup-input", "nonleaf-param", "nonleaf-param", "nograd-param",
-            "nograd-param", "aggregator-rejects", "aggregator-rejects"]
+            "nograd-param", "frozen-param", "aggregator-rejects", "aggregator-rejects"]
 M_FAULTS = ["none", "chunk", "empty-features", "empty-losses", "nonscalar-loss", "count-mismatch", "overlap", "overlap",
-            "dup-feature", "dup-task-param", "dup-shared", "nonleaf-param", "nonleaf-param", "nograd-param", "nograd-param"]
-MUST_RAISE = {"chunk", "empty-tensors", "empty-features", "empty-losses", "nonscalar-loss", "count-mismatch", "overlap",
+            "dup-feature", "dup-task-param", "dup-shared", "nonleaf-param", "nonleaf-param", "nograd-param", "nograd-param",
+            "frozen-param", "frozen-param"]
+MUST_RAISE = {"frozen-param", "chunk", "empty-tensors", "empty-features", "empty-losses", "nonscalar-loss", "count-mismatch", "overlap",
               "dup-tensor", "nonleaf-param", "nograd-param", "aggregator-rejects", "dup-feature", "dup-task-param",
               "dup-shared"}
 
@@ -68,12 +71,18 @@ def _case(draw):
         m = len(prog["losses"])
     return {"kind": kind, "prog": prog, "fault": fault, "dice": rng.integers(0, 10**6, size=6).tolist(),
             "agg": jdcheck.jd_aggregator(rng, m), "chunk": [None, 1, 2][int(rng.integers(0, 3))],
-            "pre": jdcheck.pre_grads(rng, prog, 0.7)}
+            "pre": jdcheck.pre_grads(rng, prog, 0.7),
+            # parameter groups are Iterable[Tensor]: lists, tuples, one-shot generators
+            "container": ["list", "list", "tuple", "generator"][int(rng.integers(0, 4))]}
 
 
 def parts(tier):
     n = 6_000 if tier == "quick" else 150_000
     return [Part("generated", "given", n=n, strategy=_case)]
+
+
+def _wrap(items, kind):
+    return tuple(items) if kind == "tuple" else (x for x in list(items)) if kind == "generator" else list(items)
 
 
 def _insert(lst, pos, item):
@@ -143,7 +152,19 @@ def run_case(case) -> Outcome:
             else:
                 agg = Rejecting()
             late = n_params >= 2
-        call = lambda: backward(tensors, agg, inputs=inputs, parallel_chunk_size=chunk)  # noqa: E731
+        elif fault == "frozen-param":
+            # a valid call first (the graph is retained), then one parameter is frozen and the same call is repeated
+            try:
+                backward(tensors, agg, inputs=list(inputs), parallel_chunk_size=chunk, retain_graph=True)
+            except Exception as e:  # noqa: BLE001
+                out.check(False, "valid-call-raises", f"{type(e).__name__}: {e}")
+                return out
+            pos = d[0] % len(inputs)
+            inputs[pos].requires_grad_(False)
+            late = pos > 0
+        cont = case.get("container", "list")
+        out.cls("container:" + cont)
+        call = lambda: backward(tensors, agg, inputs=_wrap(inputs, cont), parallel_chunk_size=chunk, retain_graph=True)  # noqa: E731
     else:
         feats = [g.get(f) for f in prog["features"]]
         losses = [g.get(l) for l in prog["losses"]]
@@ -202,8 +223,25 @@ def run_case(case) -> Outcome:
                 tasks[t_idx], pos = _insert(tasks[t_idx], d[0], bad)
                 late = preceding(t_idx, pos)
                 out.cls("bad-param-in:task")
-        call = lambda: mtl_backward(losses, feats, agg, tasks_params=tasks, shared_params=shared,  # noqa: E731
-                                    parallel_chunk_size=chunk, retain_graph=True)
+        elif fault == "frozen-param":
+            try:
+                mtl_backward(losses, feats, agg, tasks_params=[list(t) for t in tasks], shared_params=list(shared),
+                             parallel_chunk_size=chunk, retain_graph=True)
+            except Exception as e:  # noqa: BLE001
+                out.check(False, "valid-call-raises", f"{type(e).__name__}: {e}")
+                return out
+            if d[3] % 3 == 0 or not tasks[t_idx]:
+                pos = d[0] % len(shared)
+                shared[pos].requires_grad_(False)
+                late = sum(len(t) for t in tasks) > 0 or pos > 0
+            else:
+                pos = d[0] % len(tasks[t_idx])
+                tasks[t_idx][pos].requires_grad_(False)
+                late = preceding(t_idx, pos)
+        cont = case.get("container", "list")
+        out.cls("container:" + cont)
+        call = lambda: mtl_backward(losses, feats, agg, tasks_params=[_wrap(t, cont) for t in tasks],  # noqa: E731
+                                    shared_params=_wrap(shared, cont), parallel_chunk_size=chunk, retain_graph=True)
 
     tensors_all = {str(ref): t for ref, t in g.values.items()}
     tensors_all["nograd"] = nograd
